@@ -151,26 +151,33 @@ Fixpoint number (evs : list (bool * N * list N * list N)) (i : N) (h : N) : list
   | (_, n, d, tp) :: t => (n, d, 0 :: tp, i, h, true) :: number t (i + 1) h
   end.
 
-(* one transaction: Some (map, root snapshots, values read, expected events, expected result code) *)
+(* one transaction: Some (map, root snapshots, values read, expected events (None: not compared), expected result code).
+   An INVALID transaction (hook failed, unknown command, the command's own snapshot gone) leaves the map as it was. *)
 Definition spec_tx (height : N) (m : store) (rs : psn) (t : tx)
-  : option (store * psn * list (option bytes) * list ev_obs * N) :=
-  if snd (tx_before t) then None else
+  : option (store * psn * option (list (option bytes)) * option (list ev_obs) * N) :=
+  let sid0 := ps_count rs in
+  let del (v : psn) (id : nat) := {| ps_count := ps_count v; ps_saved := nremove (ps_saved v) id |} in
+  let invalid (v : psn) :=
+    match nlookup (ps_saved v) sid0 with
+    | Some m0 => Some (m0, del v sid0, None, None, 0)
+    | None => None
+    end in
+  let '(m1, rs1, g1) := spec_run m (psnap rs m) [] (fst (tx_before t)) in
+  if snd (tx_before t) then invalid rs1 else
   match tx_command t with
-  | None => None
+  | None => invalid rs1
   | Some c =>
-      if snd (tx_after t) then None else
-      let '(m1, rs1, g1) := spec_run m rs [] (fst (tx_before t)) in
       let sid := ps_count rs1 in
       let '(m2, rs2, g2) := spec_run m1 (psnap rs1 m1) [] (fst c) in
-      if snd c && match nlookup (ps_saved rs2) sid with Some _ => false | None => true end then None else
+      if snd c && match nlookup (ps_saved rs2) sid with Some _ => false | None => true end then invalid rs2 else
       let m3 := if snd c then m1 else m2 in
-      let rs3 := {| ps_count := ps_count rs2; ps_saved := nremove (ps_saved rs2) sid |} in
-      let '(m4, rs4, g3) := spec_run m3 rs3 [] (fst (tx_after t)) in
+      let '(m4, rs4, g3) := spec_run m3 (del rs2 sid) [] (fst (tx_after t)) in
+      if snd (tx_after t) then invalid rs4 else
       let evs := script_events (fst (tx_before t)) ++
                  (if snd c then filter (fun e => fst (fst (fst e))) (script_events (fst c)) else script_events (fst c)) ++
                  script_events (fst (tx_after t)) ++
                  [(false, 100, [8; if snd c then 0 else 1], [])] in
-      Some (m4, rs4, g1 ++ g2 ++ g3, number evs 0 height, if snd c then 1 else 2)
+      Some (m4, del rs4 sid0, Some (g1 ++ g2 ++ g3), Some (number evs 0 height), if snd c then 1 else 2)
   end.
 
 Fixpoint gots (os : list obs) : list (option bytes) :=
@@ -184,6 +191,10 @@ Fixpoint opts_eqb (a b : list (option bytes)) : bool :=
   end.
 
 (* the block against the reference semantics: Some (final map, all answers as the reference says) or None = not applicable *)
+Definition spec_answers (r r' : N) (evs : list ev_obs) (evs' : option (list ev_obs)) (os : list obs) (g : option (list (option bytes))) : bool :=
+  (r =? r') && match evs' with Some x => evs_eqb x evs | None => true end &&
+  match g with Some x => opts_eqb x (gots os) | None => true end.
+
 Fixpoint spec_block (height : N) (base : store) (m : store) (rs : psn) (txs : list tx_obs) (ok : bool) : option (store * bool) :=
   match txs with
   | [] => Some (m, ok)
@@ -191,14 +202,12 @@ Fixpoint spec_block (height : N) (base : store) (m : store) (rs : psn) (txs : li
       if dry then
         match spec_tx height base {| ps_count := 0; ps_saved := [] |} t with
         | None => spec_block height base m rs rest ok
-        | Some (_, _, g, evs', r') =>
-            spec_block height base m rs rest (ok && (r =? r') && evs_eqb evs' evs && opts_eqb g (gots os))
+        | Some (_, _, g, evs', r') => spec_block height base m rs rest (ok && spec_answers r r' evs evs' os g)
         end
       else
       match spec_tx height m rs t with
       | None => None
-      | Some (m', rs', g, evs', r') =>
-          spec_block height base m' rs' rest (ok && (r =? r') && evs_eqb evs' evs && opts_eqb g (gots os))
+      | Some (m', rs', g, evs', r') => spec_block height base m' rs' rest (ok && spec_answers r r' evs evs' os g)
       end
   end.
 
@@ -228,6 +237,9 @@ Definition dump : Type := store * option N.
 
 Inductive step :=
 | SBlock (height : N) (txs : list tx_obs) (dry : bool) (e : expect) (r : res) (rootref treeref : bool) (d : dump)
+(* block generation: txs = the candidates generator.selectTransactionsByFee executed on one context (invalid ones
+   skipped), txs2 = the selected ones executed again as a block whose Commit expects the root of the first context *)
+| SGen (height : N) (txs txs2 : list tx_obs) (selok : bool) (r : res) (rootref treeref : bool) (d : dump)
 | SRevert (height : N) (e : expect) (r : res) (rootref treeref : bool) (d : dump)
 | SInit (last : N) (wrong_root : bool) (r : res) (rootref treeref : bool) (d : dump).
 
@@ -268,6 +280,9 @@ Definition check_step (m : mstate) (st : step) : N * mstate :=
       let ref := spec_block height (a_state (m_db m)) (a_state (m_db m)) {| ps_count := 0; ps_saved := [] |} txs true in
       (code (am && res_eqb mr r && db_matches a' d)
             (asp && (if committed then rootref && treeref else true) &&
+             (* Commit answers: without an expected root, or with the root a dry run on the same context returned, it
+                succeeds; with a root that is nobody's it is refused *)
+             res_eqb r (match e with EWrong => RMismatch' | _ => ROk' end) &&
              (* reference semantics: answers of every transaction, and the committed state *)
              match ref with
              | Some (mref, okref) => okref && (if committed then store_eqb mref (fst d) && store_eqb (fst d) mref else true)
@@ -282,6 +297,32 @@ Definition check_step (m : mstate) (st : step) : N * mstate :=
                    | None, None => true
                    | _, _ => false
                    end)), m')
+  | SGen height txs txs2 selok r rootref treeref d =>
+      let prev := match nget (m_roots m) (height - 1) with Some x => x | None => [] end in
+      let '(c1, am1, asp1) := run_txs (a_state (m_db m)) height [] no_snaps txs true true in
+      let gen_root := match commit hash_i enc_i root_eqb_i tree_update_i tree_root_i (m_db m) c1 height prev None true with
+                      | COk _ x => x | _ => bogus end in
+      let '(c2, am2, asp2) := run_txs (a_state (m_db m)) height [] no_snaps txs2 true true in
+      let out := commit hash_i enc_i root_eqb_i tree_update_i tree_root_i (m_db m) c2 height prev (Some gen_root) false in
+      let '(a', mr, newroot) := match out with
+                                | COk a' x => (a', ROk', x)
+                                | CMismatch _ => (m_db m, RMismatch', bogus)
+                                | _ => (m_db m, ROther, bogus)
+                                end in
+      let committed := res_eqb r ROk' in
+      let m' := if committed
+                then {| m_db := a'; m_roots := (height, newroot) :: m_roots m; m_states := (height, fst d) :: m_states m;
+                        m_tip := height |}
+                else m in
+      let e0 := {| ps_count := 0; ps_saved := [] |} in
+      (code (am1 && am2 && res_eqb mr r && db_matches a' d)
+            ((* the generated block is valid: every node computes the root the generator put in the header *)
+             res_eqb r ROk' && rootref && treeref && selok && asp1 && asp2 &&
+             match spec_block height (a_state (m_db m)) (a_state (m_db m)) e0 txs true,
+                   spec_block height (a_state (m_db m)) (a_state (m_db m)) e0 txs2 true with
+             | Some (m1, ok1), Some (m2, ok2) => ok1 && ok2 && store_eqb m1 m2 && store_eqb m2 (fst d) && store_eqb (fst d) m2
+             | _, _ => true
+             end), m')
   | SRevert height e r rootref treeref d =>
       let cur := match nget (m_roots m) height with Some x => x | None => [] end in
       let prev := match nget (m_roots m) (height - 1) with Some x => x | None => [] end in
